@@ -21,6 +21,9 @@ def make_models():
     from .plug_graph import GraphModels
 
     m.plugins.append(GraphModels())
+    from .plug_mdachain import MdaChainModels  # C08/C09 MDAChain: abstract process constructors, iterators, abstract linearisation (gated on `mdachain = True` contracts)
+
+    m.plugins.insert(0, MdaChainModels())
     from .plug_parallel import ParallelModels  # C13: queues, threads/processes (hooks only fire on its own types/names)
 
     m.plugins.insert(0, ParallelModels())
@@ -60,6 +63,9 @@ def make_models():
     from .plug_hdf import HdfCacheModels  # C05/C11: cache-file entry groups, dataset attributes, abstract scipy sparse arrays (gated on its own objects / module _hdf5_file_singleton)
 
     m.plugins.insert(0, HdfCacheModels())
+    from .plug_hdf import HdfDesignSpaceModels  # C11: the design-space group of an HDF node (gated on `c11_hdf = True` contracts in gemseo.algos.design_space / own objects)
+
+    m.plugins.insert(0, HdfDesignSpaceModels())
     from .plug_hdf import HdfCacheFileModels  # C05/C11: the whole cache file behind HDF5FileSingleton.__file (gated on its own objects / module _hdf5_file_singleton)
 
     m.plugins.insert(0, HdfCacheFileModels())
